@@ -71,10 +71,24 @@ pub fn program_new(path: VString) -> (r: Result<Program, VErr>)
     broadcast use slashed_idempotent;
 {render(b, 1)}
 }}
+
+// ---- the property's side (known finding D112): `run x.ms` and `compile x.ms` + `execute ./x.mmm` are the same program.  The labels inside the bytecode carry the
+// spelling of the path at COMPILE time; for `execute` to find them whatever spelling the user picks at the second step, entry registration and labels would
+// have to go through one canonical spelling (`canon`: `.` components dropped at least) -- nothing in Program::new does that
+pub uninterp spec fn canon(t: Seq<char>) -> Seq<char>;
+//@ OBL C04.execute.spelling-independent
+pub fn program_new_canon(path: VString) -> (r: Result<Program, VErr>)
+    ensures r is Ok ==> r->Ok_0.entry@ == canon(slashed(text_of(&path))) && r->Ok_0.files@.dom() =~= set![canon(slashed(text_of(&path)))],
+{{
+    broadcast use slashed_idempotent;
+{render(b, 1)}
+}}
 }} // verus!
 fn main() {{}}
 """
-    return gen, [Obl("C04.execute.entry-path", ["C04", "C18", "C11"], fn="Program::new",
+    return gen, [Obl("C04.execute.spelling-independent", ["C04"], fn="Program::new",
+                     desc="KF twin (D112): the entry file is registered under a canonical spelling shared with the labels the compiler writes, so that `compile x.ms` + `execute ./x.mmm` runs the program `run x.ms` runs"),
+                 Obl("C04.execute.entry-path", ["C04", "C18", "C11"], fn="Program::new",
                      desc="Program::new: the entry file is opened, registered and made the entry point under the path as the user gave it (only `\\` -> `/`): the spelling the labels inside the bytecode use")], log
 
 
